@@ -654,6 +654,9 @@ class C04(Harness):
             "MultiplexForecaster": (MUX([("a", NF()), ("b", NF("mean"))], selected_forecaster="b"), "fc"),
             # no selection made: whether fit refuses or falls back, the parameter stays as it was passed
             "MultiplexForecaster(selected_forecaster=None)": (MUX([("a", NF()), ("b", NF("mean"))]), "fc", "may-refuse"),
+            # a component name containing "__" cannot be addressed through name__param: refused at fit
+            "EnsembleForecaster(component named a__b)": (ENS([("a__b", NF()), ("c", NF("mean"))]), "fc", "must-refuse"),
+            "TransformedTargetForecaster(step named t__x)": (PIPE([("t__x", LOGT()), ("f", NF())]), "fc", "must-refuse"),
             "RecursiveTabularRegressionForecaster": (red.make_reduction(LinearRegression(), window_length=2), "fc"),
             "Detrender(default)": (DET(), "tr"),
             "Detrender(forecaster)": (DET(NF()), "tr"),
@@ -710,6 +713,8 @@ class C04(Harness):
             rec = {}
             try:
                 r = est.fit(y) if kind == "tr" else est.fit(y, fh=1)
+                if len(spec) > 2 and spec[2] == "must-refuse":
+                    raise AssertionError("accepted although it must be refused")
                 rec["returns_self"] = r is est
                 rec["fitted"] = bool(est.is_fitted)
                 after = snap2(est)
@@ -718,7 +723,9 @@ class C04(Harness):
                 if any(getattr(c, "is_fitted", False) for c in unfitted_components):
                     rec["params_same"].append("<a component passed by the user was fitted in place>")
             except Exception as e:  # noqa
-                if len(spec) > 2 and isinstance(e, ValueError):
+                if len(spec) > 2 and spec[2] == "must-refuse" and not isinstance(e, ValueError):
+                    rec["raised"] = "%s (a ValueError was due)" % type(e).__name__
+                elif len(spec) > 2 and isinstance(e, ValueError):
                     after = snap2(est)
                     rec = {"returns_self": True, "fitted": True, "refused": True, "params_same": sorted(k for k in before if after.get(k) != before[k])}
                 else:
